@@ -60,6 +60,23 @@ def spin_try(a):
         except ValueError:
             continue
 
+def except_as_continue(xs):
+    out = []
+    for x in xs:
+        try:
+            out.append(f(x))
+        except ValueError as exc:
+            continue
+        except (KeyError, OSError) as err:
+            break
+        out.append(x)
+    while xs:
+        try:
+            xs = g(xs)
+        except Exception as e:
+            break
+    return out
+
 def gen(n):
     for i in range(n):
         if i % 2:
